@@ -66,6 +66,7 @@ func TestDriverCrypto(t *testing.T) {
 	d.runEnc(rng.Fork(5), n)
 	d.runEip712(rng.Fork(6), n)
 	d.runTyped(rng.Fork(7), n)
+	d.runCLIKeys(rng.Fork(8), n)
 
 	per := 25
 	if d.idx > 1200 {
